@@ -109,6 +109,10 @@ pub enum Op {
     AssertLowerThanFixed(u64),
     AssignLowerThanFixed(u64),
     DivRem(u64),
+    /// assertion / equality instructions on natives and bits: assert_equal, assert_equal_to_fixed,
+    /// assert_not_equal_to_fixed, is_not_equal, is_not_equal_to_fixed, assert_true / assert_false,
+    /// assign_many, add_constants
+    Cmp(u64),
     // bits / bitwise
     BinAnd(usize),
     BinOr(usize),
@@ -161,6 +165,22 @@ pub enum Op {
     K1IsEqual,
     K1Select,
     K1Pi,
+    /// assertion / equality instructions on foreign points, x_coordinate / y_coordinate
+    K1Cmp,
+    /// `ForeignEccChip::k_out_of_n_points`: a table of `n` witnessed points, `k` of them selected
+    /// (the index of each selected point is found OFF-circuit from the witness and written to a
+    /// captured `mut` vector: value -> structure channel); the selected points are exposed
+    K1KofN(usize, usize),
+    /// `ForeignEccChip::msm_by_le_bits` -> `windowed_msm` -> `multi_select`: scalars of `bits`
+    /// bits for `n` bases (the window value read off-circuit picks `point_table[selector_idx]`)
+    K1MsmBits(usize, usize),
+    /// Schnorr signature verification over Jubjub (zk_stdlib/examples/schnorr_sig.rs)
+    Schnorr,
+    /// zk_stdlib/examples/ecc_ops.rs: s*P + Q on Jubjub with a scalar from bits
+    EccOps,
+    /// zk_stdlib/examples/membership.rs: Merkle-map membership through the map gadget + poseidon
+    /// (covered by MapGet) -- here: sha_preimage.rs with a 24-byte preimage and a public digest
+    ShaPreimage,
     // bls12-381 G1 as a foreign curve
     BlsAdd,
     BlsDouble,
@@ -171,6 +191,7 @@ pub enum Op {
     Sha3(usize),
     Keccak(usize),
     Blake2b(usize),
+    Blake2b512(usize),
     // big unsigned integers (bit bound)
     BigAdd(u32),
     BigSub(u32),
@@ -202,11 +223,11 @@ impl Op {
     /// blake2b): a function of the operation alone.
     pub fn used_tables(&self) -> [bool; 6] {
         match self {
-            Op::Sha256(_) => [true, false, false, false, false, false],
+            Op::Sha256(_) | Op::ShaPreimage => [true, false, false, false, false, false],
             Op::Sha512(_) => [false, true, false, false, false, false],
             Op::Base64(..) => [false, false, true, false, false, false],
             Op::Sha3(_) | Op::Keccak(_) => [false, false, false, false, true, false],
-            Op::Blake2b(_) => [false, false, false, false, false, true],
+            Op::Blake2b(_) | Op::Blake2b512(_) => [false, false, false, false, false, true],
             _ => [false; 6],
         }
     }
@@ -299,10 +320,13 @@ impl Relation for OpRel {
             Op::JubAdd | Op::JubDouble | Op::JubNegate | Op::JubMsm(_) | Op::JubMulConst(_) | Op::JubIsEqual
             | Op::JubSelect | Op::JubFromCoords | Op::JubScalarFromNative | Op::JubPi => ZkStdLibArch { jubjub: true, ..d },
             Op::Poseidon(_) | Op::MapGet | Op::MapInsert => ZkStdLibArch { poseidon: true, ..d },
+            Op::Schnorr => ZkStdLibArch { jubjub: true, poseidon: true, ..d },
+            Op::EccOps => ZkStdLibArch { jubjub: true, ..d },
+            Op::ShaPreimage => ZkStdLibArch { sha2_256: true, ..d },
             Op::HashToCurve(_) => ZkStdLibArch { jubjub: true, poseidon: true, ..d },
             Op::FfAdd(_) | Op::FfSub(_) | Op::FfMul(_) | Op::FfDiv(_) | Op::FfNeg(_) | Op::FfInv(_) | Op::FfIsEqual(_)
             | Op::FfIsZero(_) | Op::FfToBits(_) | Op::FfToBytes(_) | Op::FfPi(_) | Op::K1Add | Op::K1Double | Op::K1Negate
-            | Op::K1Msm(_) | Op::K1MulConst(_) | Op::K1IsEqual | Op::K1Select | Op::K1Pi => {
+            | Op::K1Msm(_) | Op::K1MulConst(_) | Op::K1IsEqual | Op::K1Select | Op::K1Pi | Op::K1Cmp | Op::K1KofN(..) | Op::K1MsmBits(..) => {
                 ZkStdLibArch { secp256k1: true, nr_pow2range_cols: 4, ..d }
             }
             Op::BlsAdd | Op::BlsDouble | Op::BlsMsm => ZkStdLibArch { bls12_381: true, nr_pow2range_cols: 4, ..d },
@@ -310,7 +334,7 @@ impl Relation for OpRel {
             Op::Sha512(_) => ZkStdLibArch { sha2_512: true, ..d },
             Op::Sha3(_) => ZkStdLibArch { sha3_256: true, ..d },
             Op::Keccak(_) => ZkStdLibArch { keccak_256: true, ..d },
-            Op::Blake2b(_) => ZkStdLibArch { blake2b: true, ..d },
+            Op::Blake2b(_) | Op::Blake2b512(_) => ZkStdLibArch { blake2b: true, ..d },
             Op::BigAdd(_) | Op::BigSub(_) | Op::BigMul(_) | Op::BigDivRem(_) | Op::BigModExp(..) | Op::BigLt(_)
             | Op::BigToBytes(_) | Op::BigPi(_) => ZkStdLibArch { nr_pow2range_cols: 4, ..d },
             Op::Base64(..) => ZkStdLibArch { base64: true, ..d },
@@ -435,6 +459,25 @@ impl Relation for OpRel {
             Op::AssertNotEqual => {
                 let (x, y) = (nat(l, 0)?, nat(l, 1)?);
                 s.assert_not_equal(l, &x, &y)
+            }
+            Op::Cmp(c) => {
+                let (x, y) = (nat(l, 0)?, nat(l, 1)?);
+                let x2 = nat(l, 0)?;
+                s.assert_equal(l, &x, &x2)?;
+                let b1 = s.is_not_equal(l, &x, &y)?;
+                let b2 = s.is_not_equal_to_fixed(l, &x, F::from(*c))?;
+                let k: AN = s.assign_fixed(l, F::from(*c))?;
+                s.assert_equal_to_fixed(l, &k, F::from(*c))?;
+                s.assert_not_equal_to_fixed(l, &k, F::from(*c + 1))?;
+                let t: AB = s.assign_fixed(l, true)?;
+                let f: AB = s.assign_fixed(l, false)?;
+                s.assert_true(l, &t)?;
+                s.assert_false(l, &f)?;
+                let xs: Vec<AN> = s.assign_many(l, &[fv(&w, 0), fv(&w, 1)])?;
+                let zs = s.add_constants(l, &xs, &[F::from(*c), F::from(*c + 1)])?;
+                outb(l, &b1)?;
+                outb(l, &b2)?;
+                zs.iter().try_for_each(|z| out(l, z))
             }
             Op::Select => {
                 let c = bit(l, 0)?;
@@ -674,6 +717,26 @@ impl Relation for OpRel {
                 };
                 c.constrain_as_public_input(l, &r)
             }
+            Op::K1Cmp => {
+                let c = s.secp256k1_curve();
+                let p: AssignedForeignPoint<F, K256, MEP> = c.assign(l, w.as_ref().map(|w| w.kp[0]))?;
+                let q: AssignedForeignPoint<F, K256, MEP> = c.assign(l, w.as_ref().map(|w| w.kp[1]))?;
+                let p2: AssignedForeignPoint<F, K256, MEP> = c.assign(l, w.as_ref().map(|w| w.kp[0]))?;
+                c.assert_equal(l, &p, &p2)?;
+                let g = K256::generator();
+                let b1 = c.is_not_equal(l, &p, &q)?;
+                let b2 = c.is_equal_to_fixed(l, &p, g)?;
+                let b3 = c.is_not_equal_to_fixed(l, &q, g)?;
+                let gf: AssignedForeignPoint<F, K256, MEP> = c.assign_fixed(l, g)?;
+                c.assert_equal_to_fixed(l, &gf, g)?;
+                c.assert_not_equal_to_fixed(l, &gf, g + g)?;
+                let (px, py) = (c.x_coordinate(&p), c.y_coordinate(&p));
+                c.base_field_chip().constrain_as_public_input(l, &px)?;
+                c.base_field_chip().constrain_as_public_input(l, &py)?;
+                outb(l, &b1)?;
+                outb(l, &b2)?;
+                outb(l, &b3)
+            }
             Op::K1Pi => {
                 let c = s.secp256k1_curve();
                 let _p: AssignedForeignPoint<F, K256, MEP> = c.assign_as_public_input(l, w.as_ref().map(|w| w.kp[0]))?;
@@ -693,6 +756,69 @@ impl Relation for OpRel {
                 let r = c.msm(l, &ss, &ps)?;
                 c.constrain_as_public_input(l, &r)
             }
+            Op::K1KofN(n, k) => {
+                let c = s.secp256k1_curve();
+                // the table (first n points of the pool), then the k selected points
+                let table = (0..*n)
+                    .map(|i| c.assign(l, w.as_ref().map(|w| w.kp[i])))
+                    .collect::<Result<Vec<AssignedForeignPoint<F, K256, MEP>>, Error>>()?;
+                let selected: Vec<Value<K256>> = (0..*k).map(|j| w.as_ref().map(|w| w.kp[*n + j])).collect();
+                let pts = c.k_out_of_n_points(l, &table, &selected)?;
+                // downstream use of the returned points: their limbs are copied into the public
+                // input rows and into the addition gates
+                let mut acc = pts[0].clone();
+                for p in pts.iter().skip(1) {
+                    acc = c.add(l, &acc, p)?;
+                }
+                c.constrain_as_public_input(l, &acc)?;
+                pts.iter().try_for_each(|p| c.constrain_as_public_input(l, p))
+            }
+            Op::K1MsmBits(bits, n) => {
+                let c = s.secp256k1_curve();
+                let mut scalars = vec![];
+                let mut bases = vec![];
+                for i in 0..*n {
+                    let bs = (0..*bits).map(|j| bit(l, i * *bits + j)).collect::<Result<Vec<_>, _>>()?;
+                    let p: AssignedForeignPoint<F, K256, MEP> = c.assign(l, w.as_ref().map(|w| w.kp[i]))?;
+                    scalars.push(bs);
+                    bases.push(p);
+                }
+                let r = c.msm_by_le_bits(l, &scalars, &bases)?;
+                c.constrain_as_public_input(l, &r)
+            }
+            Op::Schnorr => {
+                // zk_stdlib/examples/schnorr_sig.rs: (s, e) with e = H(pk, R, m), R = s*G + e*pk
+                let j = s.jubjub();
+                let pk: AssignedNativePoint<Jub> = j.assign_as_public_input(l, w.as_ref().map(|w| w.jp[0]))?;
+                let m: AN = s.assign_as_public_input(l, fv(&w, 0))?;
+                let sig_s: AssignedScalarOfNativeCurve<Jub> = j.assign(l, w.as_ref().map(|w| w.js[0]))?;
+                let e_bytes = (0..32).map(|i| byte(l, i)).collect::<Result<Vec<_>, _>>()?;
+                let g: AssignedNativePoint<Jub> = j.assign_fixed(l, <JubjubSubgroup as Group>::generator())?;
+                let e_sc: AssignedScalarOfNativeCurve<Jub> = j.scalar_from_le_bytes(l, &e_bytes)?;
+                let rv = j.msm(l, &[sig_s, e_sc], &[g, pk.clone()])?;
+                let (pkx, pky) = (j.x_coordinate(&pk), j.y_coordinate(&pk));
+                let (rx, ry) = (j.x_coordinate(&rv), j.y_coordinate(&rv));
+                let h = s.poseidon(l, &[pkx, pky, rx, ry, m])?;
+                let hb = s.assigned_to_le_bytes(l, &h, None)?;
+                hb.iter().zip(e_bytes.iter()).try_for_each(|(a, b)| s.assert_equal(l, a, b))
+            }
+            Op::EccOps => {
+                // zk_stdlib/examples/ecc_ops.rs
+                let j = s.jubjub();
+                let p: AssignedNativePoint<Jub> = j.assign(l, w.as_ref().map(|w| w.jp[0]))?;
+                let q: AssignedNativePoint<Jub> = j.assign(l, w.as_ref().map(|w| w.jp[1]))?;
+                let x = nat(l, 0)?;
+                let sc: AssignedScalarOfNativeCurve<Jub> = j.convert(l, &x)?;
+                let sp = j.msm(l, &[sc], &[p])?;
+                let r = j.add(l, &sp, &q)?;
+                j.constrain_as_public_input(l, &r)
+            }
+            Op::ShaPreimage => {
+                // zk_stdlib/examples/sha_preimage.rs
+                let bytes = (0..24).map(|i| byte(l, i)).collect::<Result<Vec<_>, _>>()?;
+                let d = s.sha2_256(l, &bytes)?;
+                d.iter().try_for_each(|b| s.constrain_as_public_input(l, b))
+            }
             Op::BlsAdd | Op::BlsDouble | Op::BlsMsm => {
                 let c = s.bls12_381_curve();
                 let p: AssignedForeignPoint<F, G1Projective, MEP> = c.assign(l, w.as_ref().map(|w| w.gp[0]))?;
@@ -709,13 +835,14 @@ impl Relation for OpRel {
                 };
                 c.constrain_as_public_input(l, &r)
             }
-            Op::Sha256(n) | Op::Sha512(n) | Op::Sha3(n) | Op::Keccak(n) | Op::Blake2b(n) => {
+            Op::Sha256(n) | Op::Sha512(n) | Op::Sha3(n) | Op::Keccak(n) | Op::Blake2b(n) | Op::Blake2b512(n) => {
                 let bytes = (0..*n).map(|i| byte(l, i)).collect::<Result<Vec<_>, _>>()?;
                 let outv: Vec<AY> = match &self.op {
                     Op::Sha256(_) => s.sha2_256(l, &bytes)?.to_vec(),
                     Op::Sha512(_) => s.sha2_512(l, &bytes)?.to_vec(),
                     Op::Sha3(_) => s.sha3_256(l, &bytes)?.to_vec(),
                     Op::Keccak(_) => s.keccak_256(l, &bytes)?.to_vec(),
+                    Op::Blake2b512(_) => s.blake2b_512(l, &bytes)?.to_vec(),
                     _ => s.blake2b_256(l, &bytes)?.to_vec(),
                 };
                 outv.iter().try_for_each(|b| s.constrain_as_public_input(l, b))
@@ -883,13 +1010,17 @@ pub fn classes(op: &Op, rng: &mut ChaCha8Rng, nrand: usize) -> Vec<Class> {
     let bf = boundary_f();
     match op {
         // binary natives: pairs steering zero / equal / opposite / carry
-        Op::Add | Op::Sub | Op::Mul | Op::IsEqual | Op::AssertNotEqual | Op::Div | Op::Unused(_) => {
+        Op::Add | Op::Sub | Op::Mul | Op::IsEqual | Op::AssertNotEqual | Op::Div | Op::Unused(_) | Op::Cmp(_) => {
             for (n, x) in &bf {
                 out.push(cls(&format!("x={n},y=x"), W::f(&[*x, *x])));
                 out.push(cls(&format!("x={n},y=-x"), W::f(&[*x, -*x])));
                 out.push(cls(&format!("x={n},y=0"), W::f(&[*x, F::ZERO])));
                 out.push(cls(&format!("x=0,y={n}"), W::f(&[F::ZERO, *x])));
                 out.push(cls(&format!("x={n},y=1"), W::f(&[*x, F::ONE])));
+            }
+            if let Op::Cmp(c) = op {
+                out.push(cls("x=c,y=c+1", W::f(&[F::from(*c), F::from(*c + 1)])));
+                out.push(cls("x=c+1,y=c", W::f(&[F::from(*c + 1), F::from(*c)])));
             }
             for i in 0..nrand {
                 out.push(cls(&format!("rand{i}"), W::f(&[rand_f(rng), rand_f(rng)])));
@@ -1218,7 +1349,7 @@ pub fn classes(op: &Op, rng: &mut ChaCha8Rng, nrand: usize) -> Vec<Class> {
                 out.extend(gen!(KFp));
             }
         }
-        Op::K1Add | Op::K1IsEqual | Op::K1Select => {
+        Op::K1Add | Op::K1IsEqual | Op::K1Select | Op::K1Cmp => {
             let g = K256::generator();
             let id = K256::identity();
             let r1 = g * KFq::random(&mut *rng);
@@ -1256,6 +1387,129 @@ pub fn classes(op: &Op, rng: &mut ChaCha8Rng, nrand: usize) -> Vec<Class> {
                 out.push(cls(&format!("rand{i}"), W { ks: (0..n).map(|_| KFq::random(&mut *rng)).collect(), kp: pts(rng), ..W::default() }));
             }
         }
+        Op::K1KofN(n, k) => {
+            // a fixed table g*11, g*22, ...; the classes differ in WHICH entries are selected
+            let g = K256::generator();
+            let table: Vec<K256> = (0..*n).map(|i| g * KFq::from(11 * (i as u64 + 1))).collect();
+            let mk = |idx: &[usize]| {
+                let mut kp = table.clone();
+                kp.extend(idx.iter().map(|i| table[*i]));
+                W { kp, ..W::default() }
+            };
+            let name = |idx: &[usize]| format!("sel={}", idx.iter().map(|i| i.to_string()).collect::<Vec<_>>().join("+"));
+            // every increasing k-subset when small, else first / last / spread / random
+            let mut subsets: Vec<Vec<usize>> = vec![];
+            let first: Vec<usize> = (0..*k).collect();
+            let last: Vec<usize> = (*n - *k..*n).collect();
+            subsets.push(first.clone());
+            if last != first {
+                subsets.push(last.clone());
+            }
+            if *k == 1 {
+                for i in 1..*n - 1 {
+                    subsets.push(vec![i]);
+                }
+            } else {
+                let mut spread: Vec<usize> = (0..*k).map(|j| j * (*n - 1) / (*k - 1)).collect();
+                spread.dedup();
+                if spread.len() == *k && !subsets.contains(&spread) {
+                    subsets.push(spread);
+                }
+                let shifted: Vec<usize> = (1..=*k).collect();
+                if *k < *n && !subsets.contains(&shifted) {
+                    subsets.push(shifted);
+                }
+            }
+            for _ in 0..nrand {
+                let mut pool: Vec<usize> = (0..*n).collect();
+                let mut pick = vec![];
+                for _ in 0..*k {
+                    pick.push(pool.remove(rng.gen::<usize>() % pool.len()));
+                }
+                pick.sort();
+                if !subsets.contains(&pick) {
+                    subsets.push(pick);
+                }
+            }
+            for sub in &subsets {
+                out.push(cls(&name(sub), mk(sub)));
+            }
+            if *k >= 2 {
+                // out of order / repeated: `error_if_known_and` aborts the synthesis of these witnesses
+                let mut rev = last.clone();
+                rev.reverse();
+                out.push(unsat(&format!("out-of-order,{}", name(&rev)), mk(&rev)));
+                out.push(unsat("repeated", mk(&vec![*n - 1; *k])));
+            }
+            // a point that is not in the table (`position(..).unwrap_or(0)`)
+            let mut w = mk(&first);
+            w.kp[*n] = g * KFq::from(5u64);
+            out.push(unsat("not-in-table", w));
+        }
+        Op::K1MsmBits(bits, n) => {
+            let g = K256::generator();
+            let pts = |rng: &mut ChaCha8Rng| (0..*n).map(|_| g * KFq::random(&mut *rng)).collect::<Vec<_>>();
+            let tot = *bits * *n;
+            // window values 0 / 1 / 2^WS-1 / alternating / random: `multi_select` reads them off-circuit
+            out.push(cls("windows=0", W { b: vec![false; tot], kp: pts(rng), ..W::default() }));
+            out.push(cls("windows=15", W { b: vec![true; tot], kp: pts(rng), ..W::default() }));
+            out.push(cls("windows=1", W { b: (0..tot).map(|i| i % 4 == 0).collect(), kp: pts(rng), ..W::default() }));
+            out.push(cls("windows=8", W { b: (0..tot).map(|i| i % 4 == 3).collect(), kp: pts(rng), ..W::default() }));
+            out.push(cls("same-base", W { b: (0..tot).map(|i| i % 3 == 0).collect(), kp: vec![g; *n], ..W::default() }));
+            for i in 0..nrand {
+                out.push(cls(&format!("rand{i}"), W { b: (0..tot).map(|_| rng.gen()).collect(), kp: pts(rng), ..W::default() }));
+            }
+            out.push(unsat("base=id", W { b: vec![true; tot], kp: vec![K256::identity(); *n], ..W::default() }));
+        }
+        Op::Schnorr => {
+            use midnight_circuits::instructions::hash::HashCPU;
+            let g = <JubjubSubgroup as Group>::generator();
+            let coords = |p: &JubjubSubgroup| {
+                use group::Curve;
+                let e: Jub = (*p).into();
+                let a = e.to_affine();
+                (a.get_u(), a.get_v())
+            };
+            let sign = |sk: JFr, kk: JFr, m: F| {
+                let pk = g * sk;
+                let r = g * kk;
+                let (rx, ry) = coords(&r);
+                let (pkx, pky) = coords(&pk);
+                let h = <PoseidonChip<F> as HashCPU<F, F>>::hash(&[pkx, pky, rx, ry, m]);
+                let e_bytes = h.to_bytes_le();
+                let mut buff = [0u8; 64];
+                buff[..32].copy_from_slice(&e_bytes);
+                let e = JFr::from_bytes_wide(&buff);
+                W { jp: vec![pk], f: vec![m], js: vec![kk - e * sk], y: e_bytes.to_vec(), ..W::default() }
+            };
+            out.push(cls("sk=1,k=1,m=0", sign(JFr::ONE, JFr::ONE, F::ZERO)));
+            out.push(cls("sk=-1,k=2,m=-1", sign(-JFr::ONE, JFr::from(2), -F::ONE)));
+            for i in 0..nrand.max(1) {
+                out.push(cls(&format!("rand{i}"), sign(JFr::random(&mut *rng), JFr::random(&mut *rng), rand_f(rng))));
+            }
+            // a forged signature: same structure, unsatisfied
+            let mut bad = sign(JFr::from(3), JFr::from(4), F::from(5));
+            bad.js[0] += JFr::ONE;
+            out.push(unsat("forged", bad));
+        }
+        Op::EccOps => {
+            let g = <JubjubSubgroup as Group>::generator();
+            let id = <JubjubSubgroup as Group>::identity();
+            let r1 = g * JFr::random(&mut *rng);
+            for (n, p, q, x) in [
+                ("id,id,0", id, id, F::ZERO), ("g,id,1", g, id, F::ONE), ("g,-g,1", g, -g, F::ONE), ("p,p,-1", r1, r1, -F::ONE),
+                ("p,g,rand", r1, g, rand_f(rng)),
+            ] {
+                out.push(cls(n, W { jp: vec![p, q], f: vec![x], ..W::default() }));
+            }
+        }
+        Op::ShaPreimage => {
+            out.push(cls("all0", W { y: vec![0; 24], ..W::default() }));
+            out.push(cls("allff", W { y: vec![255; 24], ..W::default() }));
+            for i in 0..nrand {
+                out.push(cls(&format!("rand{i}"), W { y: (0..24).map(|_| rng.gen()).collect(), ..W::default() }));
+            }
+        }
         Op::BlsAdd | Op::BlsDouble | Op::BlsMsm => {
             let g = G1Projective::generator();
             let id = G1Projective::identity();
@@ -1268,7 +1522,7 @@ pub fn classes(op: &Op, rng: &mut ChaCha8Rng, nrand: usize) -> Vec<Class> {
                 out.push(cls(n, W { gp: vec![p, q], f: vec![x], ..W::default() }));
             }
         }
-        Op::Sha256(n) | Op::Sha512(n) | Op::Sha3(n) | Op::Keccak(n) | Op::Blake2b(n) | Op::Base64(n, _) | Op::FetchBytes(n, _) => {
+        Op::Sha256(n) | Op::Sha512(n) | Op::Sha3(n) | Op::Keccak(n) | Op::Blake2b(n) | Op::Blake2b512(n) | Op::Base64(n, _) | Op::FetchBytes(n, _) => {
             let n = *n;
             if let Op::Base64(..) = op {
                 let alpha = b"ABCDEFGHIJKLMNOPQRSTUVWXYZabcdefghijklmnopqrstuvwxyz0123456789+/";
@@ -1500,6 +1754,16 @@ pub fn all_ops(tier: &str) -> Vec<Op> {
         Op::Unused(0),
         Op::Unused(2),
         Op::Unused(6),
+        // value -> structure channels (translators/c09_value_channels.py): the off-circuit index
+        Op::K1KofN(3, 1),
+        Op::K1KofN(4, 2),
+        Op::K1MsmBits(4, 1),
+        Op::Cmp(7),
+        Op::K1Cmp,
+        // relations of zk_stdlib/examples
+        Op::Schnorr,
+        Op::EccOps,
+        Op::ShaPreimage,
     ]);
     if tier != "quick" {
         v.extend([
@@ -1515,6 +1779,10 @@ pub fn all_ops(tier: &str) -> Vec<Op> {
             Op::FfPi(false),
             Op::K1Msm(1),
             Op::K1Msm(2),
+            Op::K1KofN(5, 3),
+            Op::K1KofN(3, 3),
+            Op::K1MsmBits(8, 2),
+            Op::K1MsmBits(5, 1),
             Op::BlsAdd,
             Op::BlsDouble,
             Op::BlsMsm,
@@ -1531,6 +1799,7 @@ pub fn all_ops(tier: &str) -> Vec<Op> {
             Op::Blake2b(0),
             Op::Blake2b(128),
             Op::Blake2b(129),
+            Op::Blake2b512(3),
             Op::BigMul(1024),
             Op::BigModExp(1024, 3),
             Op::BigModExp(200, 65537),
